@@ -88,6 +88,16 @@ Definition to_signed (w : width) (u : Z) : Z := if u <=? wmax w then u else u - 
 
 Definition dec_int (w : width) (bs : list N) : Z := to_signed w (le_val bs).
 
+(* min(cap, max(z, 0)) as a nat, computed in that many steps.  Lengths and indices taken from the
+   bytes are converted with a cap just above what the remaining input can satisfy: Z.to_nat on a
+   hostile 2^31 would build a unary numeral of that size, and any value above the cap fails in the
+   same way as the cap does *)
+Fixpoint znat (cap : nat) (z : Z) : nat :=
+  match cap with
+  | O => O
+  | S c => if z <=? 0 then O else S (znat c (z - 1))
+  end.
+
 (* split k bytes off a stream *)
 Definition take (k : nat) (bs : list N) : option (list N * list N) :=
   if (k <=? length bs)%nat then Some (firstn k bs, skipn k bs) else None.
